@@ -355,6 +355,159 @@ fn to_case(bucket: &str, run: Run) -> Case {
     Case { key: if nontrivial { format!("{}|{}|{}", tr, run.impls.0, run.impls.1) } else { String::new() }, coq, desc, oracle: run.oracle }
 }
 
+
+// ---------------------------------------------------------------- the real storescp binary as acceptor
+struct Scp { child: std::process::Child, port: u16, dir: std::path::PathBuf }
+impl Drop for Scp {
+    fn drop(&mut self) { let _ = self.child.kill(); let _ = self.child.wait(); let _ = std::fs::remove_dir_all(&self.dir); }
+}
+fn spawn_scp(non_blocking: bool, tag: u64) -> Option<Scp> {
+    let bin_dir = std::env::var("VH_BIN_DIR").ok()?;
+    let bin = std::path::Path::new(&bin_dir).join("dicom-storescp");
+    if !bin.exists() { return None; }
+    let port = { let l = TcpListener::bind("127.0.0.1:0").ok()?; l.local_addr().ok()?.port() };
+    let dir = std::env::temp_dir().join(format!("vh_assoc_scp_{}_{}", std::process::id(), tag));
+    std::fs::create_dir_all(&dir).ok()?;
+    let mut cmd = std::process::Command::new(bin);
+    cmd.arg("-p").arg(port.to_string()).arg("-o").arg(&dir).stdout(std::process::Stdio::null()).stderr(std::process::Stdio::null());
+    if non_blocking { cmd.arg("--non-blocking"); }
+    let child = cmd.spawn().ok()?;
+    let scp = Scp { child, port, dir };
+    // wait until it listens
+    let t0 = std::time::Instant::now();
+    while t0.elapsed() < Duration::from_secs(10) {
+        if std::net::TcpStream::connect(("127.0.0.1", port)).is_ok() { return Some(scp); }
+        std::thread::sleep(Duration::from_millis(20));
+    }
+    None
+}
+
+/// C-ECHO-RQ command set in Implicit VR Little Endian
+fn echo_rq(msg_id: u16) -> Vec<u8> {
+    let mut rest: Vec<u8> = vec![];
+    let uid = b"1.2.840.10008.1.1\0";
+    rest.extend_from_slice(&[0x00, 0x00, 0x02, 0x00]); rest.extend_from_slice(&(uid.len() as u32).to_le_bytes()); rest.extend_from_slice(uid);
+    for (el, v) in [(0x0100u16, 0x0030u16), (0x0110, msg_id), (0x0800, 0x0101)] {
+        rest.extend_from_slice(&[0x00, 0x00]); rest.extend_from_slice(&el.to_le_bytes()); rest.extend_from_slice(&2u32.to_le_bytes()); rest.extend_from_slice(&v.to_le_bytes());
+    }
+    let mut out = vec![0x00, 0x00, 0x00, 0x00, 4, 0, 0, 0];
+    out.extend_from_slice(&(rest.len() as u32).to_le_bytes());
+    out.extend_from_slice(&rest);
+    out
+}
+
+/// One association of a real requestor with the real storescp through the proxy. The acceptor's
+/// events are those of its loop (store_sync.rs / store_async.rs `inner`): every C-ECHO is answered,
+/// a release request is answered with a release reply, abort / end of connection end the loop;
+/// the proxy's record of what storescp actually wrote is compared with them.
+fn run_scp(r: &mut Rng, scp: &Scp, non_blocking: bool) -> Option<Run> {
+    use dicom_ul::association::Association;
+    let px = proxy::start(std::net::SocketAddr::from(([127, 0, 0, 1], scp.port)), IO_TIMEOUT)?;
+    let mut a = Some(client_opts().establish(px.addr).ok()?);
+    let ctx_id = a.as_ref()?.presentation_contexts().first()?.id;
+    let base = [px.count(0), px.count(1)];
+    let mut trace: Vec<Label> = vec![];
+    let mut fails: Option<(String, String)> = None;
+    let fail = |f: &mut Option<(String, String)>, c: &str, d: String| { if f.is_none() { *f = Some((c.to_string(), d)); } };
+    let mut pending = 0usize;   // answers of storescp not yet received by the requestor
+    let mut answered = 0usize;
+    let mut rq_sent = false;
+    let steps = r.below(6);
+    for step in 0..=steps {
+        let terminal = step == steps;
+        let act = if terminal { 3 + r.below(3) } else if pending > 0 && r.coin() { 1 } else { 0 };
+        match act {
+            0 => {
+                let pdu = Pdu::PData { data: vec![PDataValue { presentation_context_id: ctx_id, value_type: PDataValueType::Command, is_last: true, data: echo_rq(step as u16 + 1) }] };
+                match a.as_mut()?.send(&pdu) {
+                    Ok(()) => {
+                        trace.push(Label::SendData(0));
+                        answered += 1;
+                        if px.wait_count(1, base[1] + answered, Duration::from_millis(3000)) { trace.push(Label::Recv(1, Kind::Data)); trace.push(Label::SendData(1)); pending += 1; }
+                        else { answered -= 1; fail(&mut fails, "scp-echo-not-answered", "storescp did not answer a C-ECHO-RQ within 3 s".into()); trace.push(Label::Recv(1, Kind::Data)); }
+                    }
+                    Err(_) => { trace.push(Label::SendFail(0)); a = None; break; }
+                }
+            }
+            1 => match a.as_mut()?.receive() {
+                Ok(p) => match Kind::of_pdu(&p) { Some(k) => { trace.push(Label::Recv(0, k)); pending -= 1; } None => trace.push(Label::Bad("foreign pdu".into())) },
+                Err(_) => { trace.push(Label::RecvFin(0)); a = None; break; }
+            },
+            3 => {
+                let res = a.take()?.release();
+                trace.push(Label::Release(0)); rq_sent = true;
+                let _ = px.wait_ended(1, Duration::from_millis(3000));
+                let rp_on_wire = px.snapshot().iter().any(|x| x.dir == 1 && matches!(x.ev, Ev::Pdu { typ: 6, .. }));
+                match res {
+                    Ok(()) => {
+                        trace.push(Label::Recv(1, Kind::Rq)); trace.push(Label::SendRp(1)); trace.push(Label::Await(0, Item::K(Kind::Rp)));
+                        if pending > 0 { fail(&mut fails, "release-completed-without-release-reply", format!("release() returned Ok with {pending} unread P-DATA answers before the reply")); }
+                    }
+                    Err(AErr::UnexpectedPdu { pdu, .. }) => {
+                        let k = Kind::of_pdu(&pdu).unwrap_or(Kind::Abort);
+                        trace.push(Label::Await(0, Item::K(k)));
+                        if rp_on_wire { trace.push(Label::Recv(1, Kind::Rq)); trace.push(Label::SendRp(1)); } else { trace.push(Label::Lose(0)); trace.push(Label::RecvFin(1)); }
+                    }
+                    Err(_) => {
+                        if rp_on_wire { trace.push(Label::Recv(1, Kind::Rq)); trace.push(Label::SendRp(1)); trace.push(Label::Lose(1)); trace.push(Label::Await(0, Item::Fin)); }
+                        else { trace.push(Label::Bad("release failed without an answer from storescp".into())); }
+                    }
+                }
+            }
+            4 => {
+                let _ = a.take()?.abort();
+                trace.push(Label::Abort(0));
+                let _ = px.wait_ended(1, Duration::from_millis(3000));
+                if pending == 0 { trace.push(Label::Recv(1, Kind::Abort)); } else { trace.push(Label::Lose(0)); trace.push(Label::RecvFin(1)); }
+            }
+            _ => {
+                drop(a.take());
+                trace.push(Label::Close(0));
+                let _ = px.wait_ended(1, Duration::from_millis(3000));
+                if pending > 0 { trace.push(Label::Lose(0)); }
+                trace.push(Label::RecvFin(1));
+            }
+        }
+    }
+    drop(a);
+    if !px.wait_ended(1, Duration::from_millis(3000)) { fail(&mut fails, "scp-keeps-connection", "storescp did not close the connection after the association ended".into()); }
+    let log = px.finish();
+    let mut wire: [Vec<Kind>; 2] = [vec![], vec![]];
+    let mut orderly = [false, false];
+    let mut seen = [0usize, 0usize];
+    for rec in &log {
+        let d = rec.dir as usize;
+        match &rec.ev {
+            Ev::Pdu { typ, .. } => { seen[d] += 1; if seen[d] > base[d] { match Kind::of_type(*typ) { Some(k) => wire[d].push(k), None => fail(&mut fails, "foreign-pdu-on-established-association", format!("PDU type {typ} from {}", peer(d))) } } }
+            Ev::Eof => orderly[d] = true,
+            Ev::Reset => {}
+        }
+    }
+    // the acceptor answers a release request with a release reply
+    if rq_sent && orderly[0] && orderly[1] && !wire[1].contains(&Kind::Rp) {
+        fail(&mut fails, "scp-release-not-answered", format!("A-RELEASE-RQ reached storescp, its answer on the wire: {:?}", wire[1]));
+    }
+    if let Some(pos) = wire[1].iter().position(|k| *k == Kind::Rp) { if pos + 1 != wire[1].len() { fail(&mut fails, "data-after-completed-release", format!("storescp wrote {:?}", wire[1])); } }
+    let oracle = match fails { Some((class, detail)) => Oracle::Fails { class, detail }, None => Oracle::Holds };
+    Some(Run { trace, wire, orderly, oracle, impls: (false, non_blocking), notes: vec!["acceptor = dicom-storescp binary".into()] })
+}
+
+fn scp_cases(r: &mut Rng, n: usize, out: &mut Vec<Case>) {
+    for (k, nb) in [false, true].into_iter().enumerate() {
+        let Some(scp) = spawn_scp(nb, k as u64) else { continue };
+        for _ in 0..n / 2 {
+            let mut rr = r.fork();
+            if let Some(run) = run_scp(&mut rr, &scp, nb) {
+                let bucket = format!("storescp-{}|{}", if nb { "async" } else { "sync" },
+                    if run.trace.iter().any(|l| matches!(l, Label::Await(_, Item::K(Kind::Rp)))) { "released" }
+                    else if run.trace.iter().any(|l| matches!(l, Label::Await(..))) { "release-failed" }
+                    else if run.trace.iter().any(|l| matches!(l, Label::Abort(_))) { "abort" } else { "closed" });
+                out.push(to_case(&bucket, run));
+            }
+        }
+    }
+}
+
 /// fixed schedules first: they are replayed by a scripted pseudo-random source
 struct Script(Vec<u64>);
 
@@ -362,6 +515,8 @@ pub fn cases(ctx: &Ctx) -> Vec<Case> {
     let mut r = Rng::new(ctx.seed);
     let mut out = vec![];
     let _ = Script(vec![]);
+    // the real storescp binary as acceptor (when the check built it: env VH_BIN_DIR)
+    scp_cases(&mut r, if ctx.tier == Tier::Thorough { 2000 } else { 60 }, &mut out);
     let mut i = 0usize;
     while out.len() < ctx.n && i < ctx.n * 3 {
         let (ac, as_) = match i % 4 { 0 => (false, false), 1 => (true, true), 2 => (false, true), _ => (true, false) };
